@@ -474,6 +474,8 @@ def _drive(obs, mgr, xfers, spec, mode, do_cancel):
         obs.shutdown_exc = sh.exc
         log.add('shutdown.end', error=repr(sh.exc) if sh.exc else None)
         _post_shutdown(obs)
+    elif mode in ('kbi_result', 'kbi_shutdown'):
+        _drive_kbi(obs, mgr, xfers, spec, mode, start_results)
     elif mode in ('shutdown_cancel', 'with_exc', 'with_kbi', 'shutdown_plain'):
         # wait for the trigger (a director cancel point signalling the main
         # thread) or, without one, go straight away
@@ -579,6 +581,114 @@ def _post_shutdown(obs):
     w.log.add('post.check')
     obs.live_stage_threads = [t.name for t in threading.enumerate()
                               if t.name.startswith(('vf-request', 'vf-submission', 'vf-io')) and t.is_alive()]
+
+
+def _main_thread_asleep(tid):
+    try:
+        with open(f'/proc/self/task/{tid}/stat', 'rb') as f:
+            st = f.read().decode('ascii', 'replace')
+        return st[st.rfind(')') + 2:].split()[0] == 'S'
+    except OSError:
+        return False
+
+
+def _drive_kbi(obs, mgr, xfers, spec, mode, start_results):
+    """Ctrl-C while the user (this process' main thread) is blocked in result() / shutdown(): a real SIGINT is
+    delivered with pthread_kill once the main thread is asleep inside the call.  Must run on the main thread."""
+    import vf
+
+    w = obs.world
+    log = w.log
+    if threading.current_thread() is not threading.main_thread():
+        obs.kbi = {'skipped': 'not on the main thread'}
+        return
+    main_tid = threading.get_native_id()
+    main_ident = threading.main_thread().ident
+    state = {'in_call': False, 'returned': False, 'sent': False}
+    lock = threading.Lock()
+    stop = threading.Event()
+
+    def sender():
+        trig = spec.get('trigger', 'immediate')
+        with watchdog.polling():
+            while not stop.is_set():
+                if trig == 'event' and not obs.main_cancel_request.is_set() and not all(
+                        x.future is None or x.future.done() for x in xfers):
+                    time.sleep(0.0005)
+                    continue
+                if state['in_call'] and _main_thread_asleep(main_tid):
+                    time.sleep(0.002)
+                    if _main_thread_asleep(main_tid):
+                        with lock:
+                            if not state['returned'] and not state['sent']:
+                                state['sent'] = True
+                                ev = log.add('cancel.begin', how=mode)
+                                obs.cancel_events.append(ev)
+                                w.director.cancel_began = True
+                                signal.pthread_kill(main_ident, signal.SIGINT)
+                        return
+                time.sleep(0.0005)
+
+    def guard():
+        # the main thread itself is the obligation here: if it deadlocks nobody else can report it
+        r = watchdog.await_or_deadlock(lambda: state['returned'], w.director, log, wall_timeout=spec.get('wall_timeout', 30.0))
+        if r != 'done':
+            obs.hang = r
+            obs.hang_what = mode
+            obs.stacks = watchdog.all_stacks()
+            obs.events = log.snapshot()
+            from . import e2e
+
+            res = e2e.hang_result(obs, True)
+            if r == 'deadlock':
+                from .oracles import V
+
+                res['verdict'] = 'violated'
+                res['violations'] = [V(f'deadlock: Ctrl-C while blocked in {mode.split("_")[1]}() never returned; blocked in '
+                                       f'{e2e.lib_frames(obs.stacks)}', sym='deadlock', blocked_call=mode, entry=mode)]
+            vf.fatal_emit(res)
+
+    threading.Thread(target=sender, name='vf-sigint-sender', daemon=True).start()
+    threading.Thread(target=guard, name='vf-kbi-guard', daemon=True).start()
+    got = {'kbi': False, 'exc': None, 'late_kbi': False}
+    try:
+        try:
+            state['in_call'] = True
+            if mode == 'kbi_result':
+                log.add('result.call', label=xfers[0].label)
+                xfers[0].future.result()
+            else:
+                log.add('shutdown.begin')
+                mgr.shutdown()
+        except KeyboardInterrupt:
+            got['kbi'] = True
+        except BaseException as e:  # noqa
+            got['exc'] = e
+        with lock:
+            state['returned'] = True
+    except KeyboardInterrupt:
+        got['late_kbi'] = True
+        state['returned'] = True
+    stop.set()
+    log.add('cancel.end', how=mode, kbi=got['kbi'])
+    obs.kbi = dict(got, sent=state['sent'])
+    if mode == 'kbi_shutdown':
+        obs.done_at_barrier = {x.label: (x.future.done() if x.future is not None else None) for x in xfers}
+        log.add('shutdown.end', error='KeyboardInterrupt' if got['kbi'] else None)
+        _post_shutdown(obs)
+    obl = start_results()
+    if not _await(obs, lambda: all(o.done.is_set() for o in obl), 'result-after-kbi'):
+        _record_outcomes(xfers)
+        return
+    _record_outcomes(xfers)
+    if mode == 'kbi_result':
+        log.add('shutdown.begin')
+        sh = watchdog.Obligation(lambda: mgr.shutdown(), name='shutdown').start()
+        if not _await(obs, sh.done.is_set, 'shutdown'):
+            return
+        obs.shutdown_exc = sh.exc
+        log.add('shutdown.end', error=repr(sh.exc) if sh.exc else None)
+        _post_shutdown(obs)
 
 
 def _record_outcomes(xfers):
